@@ -41,7 +41,7 @@ func vfc37Times(rng *rand.Rand, maxN int) ([]int64, string) {
 	t := base
 	switch mode {
 	case "regular", "gappy":
-		iv := vfkit.Pick(rng, []int64{1000, 5000, 15000, 30000, 60000, 120000})
+		iv := vfkit.Pick(rng, []int64{1000, 5000, 15000, 30000, 60000, 120000, 300000})
 		for i := 0; i < n; i++ {
 			ts = append(ts, t)
 			d := iv + rng.Int63n(iv/5+1) - iv/10
@@ -270,7 +270,7 @@ func TestVF_C37(t *testing.T) {
 	r.Rule("case = raw non-negative integer counter (1..3000 samples; regular/irregular/gappy/sparse scrapes) with 0..8 resets placed inside chunks, exactly on the first sample of a 5m output chunk (boundaries learnt from a first DownsampleRaw run), in consecutive samples, to zero or to a smaller non-zero value; " +
 		"the real DownsampleRaw(5m) and then the real downsampleAggr(5m->1h) are run and the counter aggregate of each level is read with the real ApplyCounterResetsSeriesIterator (Next-only and Next/Seek mixed); " +
 		"oracle: every emitted (t,v) has v == F(t) = raw value at the last raw sample <= t plus all pre-reset values up to it, timestamps strictly increase; distinct = hash of raw series; non-trivial = at least one reset and >= 2 emitted samples per level")
-	n := r.N(3000, 150000)
+	n := r.N(2000, 50000)
 	r.Require(int64(n), n/3)
 	r.Assume("raw counter samples are non-negative, NaN-free and strictly increasing in time")
 	for c := 0; c < n; c++ {
